@@ -89,8 +89,8 @@ def run(ctx):
         if f:
             ctx.report(case, 'failure', f)
     # reverse sweep of single operations (every direction has its own base point and, for det/logdet/lu, its own pivots)
-    for name in revchecks.reversible_ops():
-        for k in range(3 if ctx.tier == 'quick' else 40):
+    for name in revchecks.reversible_ops(for_truncation=False):
+        for k in range((8 if name in ('det', 'logdet', 'lu', 'inv', 'solve', 'eigh:mixed') else 3) if ctx.tier == 'quick' else 40):
             case = ops.gen_case(ctx.rng, ctx.tier, name, P=ctx.rng.choice([2, 3]), D=ctx.rng.randint(1, 4))
             case['seed'] = ctx.rng.randrange(1 << 30)
             case['rev'] = True
